@@ -171,7 +171,7 @@ func Concretise(g GenCase, rng *rand.Rand) (Case, bool) {
 			continue
 		}
 
-		srcs := []string{"hdr", "cookie", "query", "hdrquery"}
+		srcs := []string{"hdr", "cookie", "query", "hdrquery", "body"}
 
 		hasCreds := st.Class != "none"
 		if !authzTaken && !(hasCreds && basicCreds) {
@@ -226,6 +226,8 @@ func Concretise(g GenCase, rng *rand.Rand) (Case, bool) {
 			st.Shape = idle
 		case st.Src == "hdr" || st.Src == "hdrquery":
 			st.Shape = pick(rng, "absent", "otherscheme")
+		case st.Src == "body":
+			st.Shape = pick(rng, "absent", "otherparam") // no body at all / a form without the parameter
 		default:
 			st.Shape = "absent"
 		}
